@@ -109,7 +109,11 @@ pub(crate) fn generate_pipeline(
             });
         }
 
-        let struct_name = ARGUMENT_BUFFER_NAMES[i];
+        // Only a fixed number of argument buffers have names reserved for them
+        let struct_name = match ARGUMENT_BUFFER_NAMES.get(i) {
+            Some(name) => *name,
+            None => return Err(GenerateError::UnsupportedBindGroupIndex),
+        };
         let sd = ast::StructDefinition {
             name: Located::none(String::from(struct_name)),
             base_types: Vec::new(),
